@@ -266,6 +266,7 @@ class Machine:
         self.stmts = []     # recorded program (top-level statement list being built)
         self._cur = self.stmts
         self.raised = None  # (statement, exception) that ended the run
+        self.input_vars = []  # recorder variables created by "in" statements
         self.depth = 0
         self.stmt_count = 0
 
@@ -308,7 +309,9 @@ class Machine:
         try:
             if kind == "in":
                 _, k, t, v = stmt
+                nv = len(ns.rec.vals)
                 new = self.bind(self._make_input(k, t, v))
+                self.input_vars.extend(range(nv, len(ns.rec.vals)))
             elif kind == "const":
                 v = stmt[1]
                 if isinstance(v, list):
@@ -450,7 +453,7 @@ class Gen:
         self.allow_ignore = allow_ignore
         self.labels = set()
         self.guard_forms = ["lc", "lc", "lc", "bool"]
-        self.ivals = value_strategy or int_values(st, machine.cfg["b"])
+        self.ivals = value_strategy if value_strategy is not None else int_values(st, machine.cfg["b"])
 
     def _pick_weighted(self):
         return self.draw(self.st.sampled_from(self.pool))
